@@ -120,7 +120,10 @@ func c27RealTarget(t string) string {
 	return t
 }
 
-func c27Snapshot() string {
+func c27Snapshot() string { return c27SnapshotExcept("") }
+
+// c27SnapshotExcept lists the sandbox without what lies strictly below `below` (a path relative to R).
+func c27SnapshotExcept(below string) string {
 	type ent struct {
 		p, desc string
 		ino     uint64
@@ -133,6 +136,9 @@ func c27Snapshot() string {
 		}
 		rel, _ := filepath.Rel(c27Root, path)
 		rel = filepath.ToSlash(rel)
+		if below != "" && strings.HasPrefix(rel, below+"/") {
+			return nil
+		}
 		switch {
 		case info.Mode()&os.ModeSymlink != 0:
 			t, _ := os.Readlink(path)
@@ -214,6 +220,15 @@ func c27Archive(entries []string, plain bool) ([]byte, error) {
 			h = &tar.Header{Name: f[1], Typeflag: tar.TypeLink, Linkname: c27RealTarget(f[2]), Mode: 0o644}
 		case "o":
 			h = &tar.Header{Name: f[1], Typeflag: tar.TypeFifo, Mode: 0o644}
+		case "c": // character / block device entries: skipped like every other unsupported type
+			h = &tar.Header{Name: f[1], Typeflag: tar.TypeChar, Mode: 0o644, Devmajor: 1, Devminor: 3}
+		case "b":
+			h = &tar.Header{Name: f[1], Typeflag: tar.TypeBlock, Mode: 0o644, Devmajor: 8, Devminor: 0}
+		case "F": // regular file in GNU format (long names use ././@LongLink entries instead of PAX records)
+			body = c27Content(f[2])
+			h = &tar.Header{Name: f[1], Typeflag: tar.TypeReg, Mode: 0o644, Size: int64(len(body)), Format: tar.FormatGNU}
+		case "S": // symlink in GNU format
+			h = &tar.Header{Name: f[1], Typeflag: tar.TypeSymlink, Linkname: c27RealTarget(f[2]), Mode: 0o777, Format: tar.FormatGNU}
 		default:
 			return nil, fmt.Errorf("bad entry %q", e)
 		}
@@ -235,6 +250,107 @@ func c27Archive(entries []string, plain bool) ([]byte, error) {
 		}
 	}
 	return buf.Bytes(), nil
+}
+
+// c27RawArchive builds an archive from the entries and then damages it / makes it hostile.
+func c27RawArchive(variant string, seed int64, entries []string) []byte {
+	r := newRng(seed)
+	plain, err := c27Archive(entries, true)
+	must(err)
+	gz := func(b []byte) []byte {
+		var buf bytes.Buffer
+		w := gzip.NewWriter(&buf)
+		w.Write(b)
+		w.Close()
+		return buf.Bytes()
+	}
+	octal := func(b []byte, off, n int, v string) { // overwrite a numeric header field
+		for i := 0; i < n; i++ {
+			b[off+i] = 0
+		}
+		copy(b[off:off+n], v)
+	}
+	fixsum := func(b []byte, off int) {
+		for i := 148; i < 156; i++ {
+			b[off+i] = ' '
+		}
+		var sum int
+		for i := 0; i < 512; i++ {
+			sum += int(b[off+i])
+		}
+		copy(b[off+148:off+156], fmt.Sprintf("%06o\x00 ", sum))
+	}
+	hdr := 0 // offset of a header block to damage: the first one, or a later 512-aligned block that looks like one
+	if len(plain) >= 1024 && r.chance(60) {
+		for try := 0; try < 20; try++ {
+			o := 512 * r.intn(len(plain)/512)
+			if plain[o+257] == 'u' && plain[o+258] == 's' { // "ustar"
+				hdr = o
+				break
+			}
+		}
+	}
+	switch variant {
+	case "truncgz": // the gzip stream is cut
+		g := gz(plain)
+		return g[:r.intn(len(g)+1)]
+	case "trunctar": // the tar stream is cut (inside a header, inside a body, before the end marker)
+		return gz(plain[:r.intn(len(plain)+1)])
+	case "badsum":
+		if len(plain) >= 512 {
+			plain[hdr+148+r.intn(6)] ^= 0x15
+		}
+	case "hugesize": // the header announces far more data than follows
+		if len(plain) >= 512 {
+			octal(plain, hdr+124, 12, r.pickS("77777777777", "00000200000", "37777777777"))
+			fixsum(plain, hdr)
+		}
+	case "badsize":
+		if len(plain) >= 512 {
+			octal(plain, hdr+124, 12, r.pickS("-0000000001", "zzzzzzzzzzz", "\x80\xff\xff\xff\xff\xff\xff\xff\xff\xff\xff\xff"))
+			fixsum(plain, hdr)
+		}
+	case "badtype":
+		if len(plain) >= 512 {
+			plain[hdr+156] = byte(r.pickS("Z", "7", "D", "M", "N", "V", "\x00", "x", "g", "L", "K")[0])
+			fixsum(plain, hdr)
+		}
+	case "garbage":
+		plain = append(plain, r.bytes(r.pick(1, 511, 512, 2000))...)
+	case "noise":
+		for k := r.pick(1, 3, 20); k > 0 && len(plain) > 0; k-- {
+			plain[r.intn(len(plain))] ^= byte(1 << r.intn(8))
+		}
+	case "nulname":
+		if len(plain) >= 512 {
+			plain[hdr+r.intn(6)] = 0
+			fixsum(plain, hdr)
+		}
+	case "dotdotname": // a raw header name that the writer would not produce
+		if len(plain) >= 512 {
+			octal(plain, hdr, 100, r.pickS("../raw-escape", "a/../../raw-escape", "/raw-abs", "..", "a/../..", "./../x"))
+			fixsum(plain, hdr)
+		}
+	case "pax": // PAX records override name / link name after the header was built
+		var buf bytes.Buffer
+		tw := tar.NewWriter(&buf)
+		body := []byte("pax-body")
+		tw.WriteHeader(&tar.Header{Name: "innocent", Typeflag: tar.TypeReg, Mode: 0o644, Size: int64(len(body)),
+			PAXRecords: map[string]string{"path": r.pickS("../pax-escape", "/pax-abs", "a/../../pax-escape", strings.Repeat("d/", 300) + "deep")}})
+		tw.Write(body)
+		tw.WriteHeader(&tar.Header{Name: "lnk", Typeflag: tar.TypeSymlink, Linkname: "x", Mode: 0o777,
+			PAXRecords: map[string]string{"linkpath": r.pickS("../..", "/etc", "..")}})
+		tw.WriteHeader(&tar.Header{Name: "lnk/through", Typeflag: tar.TypeReg, Mode: 0o644, Size: int64(len(body))})
+		tw.Write(body)
+		tw.Close()
+		plain = append(buf.Bytes(), plain...)
+		_ = plain
+		plain = buf.Bytes()
+	}
+	if seed%2 == 0 && seed%3 == 0 { // the HTTP upload path also takes a plain tar
+		return plain
+	}
+	return gz(plain)
 }
 
 func c27Ok(err error) string {
@@ -270,6 +386,17 @@ func c27Run(line string) string {
 		}
 		err = filetransfer.UntarDirectory(bytes.NewReader(ar), c27Real(f[1]))
 		return c27Ok(err) + " " + c27Snapshot()
+	case "untarraw":
+		// malformed / hostile streams: untarraw <dest> <variant> <seed> <entry>...  -> done <listing without what is below dest>
+		// totality (no panic, the call returns) and "outside unchanged"; what is left below dest is not predicted
+		seed, _ := strconv.ParseInt(f[3], 10, 64)
+		ar := c27RawArchive(f[2], seed, f[4:])
+		if seed%3 == 0 {
+			health.VerifC27ExtractTar(bytes.NewReader(ar), c27Real(f[1]))
+		} else {
+			filetransfer.UntarDirectory(bytes.NewReader(ar), c27Real(f[1]))
+		}
+		return "done " + c27SnapshotExcept(f[1])
 	case "untarh", "untarhp":
 		// the HTTP directory-upload path: health.extractTarWithFallback, gzip ("untarh") or plain tar ("untarhp")
 		ar, err := c27Archive(f[2:], f[0] == "untarhp")
@@ -313,8 +440,15 @@ func c27Gen(w *bufio.Writer, seed int64, tier string) {
 		case 8:
 			return "h:" + name + ":" + names[r.intn(len(names))]
 		default:
-			if r.chance(50) {
+			switch r.intn(6) {
+			case 0:
 				return "o:" + name
+			case 1:
+				return r.pickS("c:", "b:") + name
+			case 2:
+				return fmt.Sprintf("F:%s:g%dx%d", name, k, r.pick(0, 9))
+			case 3:
+				return "S:" + name + ":" + targets[r.intn(len(targets))]
 			}
 			return "h:" + name + ":" + targets[r.intn(len(targets))]
 		}
@@ -480,6 +614,32 @@ func c27Gen(w *bufio.Writer, seed int64, tier string) {
 			}
 		}
 		chain(es...)
+	}
+	// malformed and hostile streams: truncated, bad checksums, absurd sizes, unknown type flags, raw
+	// traversal names, PAX overrides, GNU long names — the extractor must return and leave the outside alone
+	variants := []string{"truncgz", "trunctar", "badsum", "hugesize", "badsize", "badtype", "garbage", "noise", "nulname", "dotdotname", "pax"}
+	nraw := 8
+	if tier == "thorough" {
+		nraw = 300
+	}
+	for _, v := range variants {
+		for i := 0; i < nraw; i++ {
+			sentinels()
+			fmt.Fprintln(w, "pre file w/neighbour n1")
+			if r.chance(40) {
+				fmt.Fprintln(w, "pre dir "+dest)
+			}
+			var es []string
+			for k := r.pick(1, 2, 3, 5); k > 0; k-- {
+				es = append(es, mkEntry(k))
+			}
+			if r.chance(30) { // long names: PAX records / GNU long-name entries in front of the header
+				long := strings.Repeat("n", r.pick(101, 200, 255))
+				es = append(es, r.pickS("f:", "F:")+long+"/"+long+":c1x3")
+			}
+			fmt.Fprintln(w, "snap")
+			fmt.Fprintf(w, "untarraw %s %s %d %s\n", dest, v, r.intn(1000), strings.Join(es, " "))
+		}
 	}
 	// large / boundary inputs
 	big := 6
